@@ -1034,6 +1034,10 @@ class Job(Base):
         uselist=True,
     )
 
+    def __init__(self, *args, **kwargs):
+        super().__init__(*args, **kwargs)
+        self._load()
+
     @reconstructor
     def _load(self) -> None:
         self._status: str | None = None
@@ -1099,6 +1103,21 @@ class Job(Base):
                 return tag.value_parsed or {}
 
         return {}
+
+
+def _forget_status(record: Any, *args: Any) -> None:
+    """
+    Drop the memoized status whenever the ORM expires or reloads the record's columns
+    (e.g. on commit), so that `status` follows `end_time`/`call_hash` of a reused record.
+    """
+    # The ORM passes None when the object itself has already been garbage collected.
+    if record is not None:
+        record._status = None
+
+
+for _model in (Execution, Job):
+    event.listen(_model, "expire", _forget_status)
+    event.listen(_model, "refresh", _forget_status)
 
 
 class Task(Base):
